@@ -942,6 +942,14 @@ func main() {
 		op, cls := genNegoh(r)
 		out.Case(op, exec(op), cls, true)
 	}
+	nNegos := 40 * mult
+	if nNegos > 240 {
+		nNegos = 240
+	}
+	for i := 0; i < nNegos; i++ {
+		op, cls := genNegos(r)
+		out.Case(op, exec(op), cls, true)
+	}
 
 	// 00. ownership of the buffers that cross the compressor boundary: held results (codec level, framer
 	//     level) and responses in flight on real connections (see held.go)
